@@ -29,6 +29,7 @@ type zzWal struct {
 	closed       bool
 	yieldOnSync  bool // AppendAndSync yields between append and sync (schedule point "wal.sync:<name>")
 	appends      int
+	rejected     int // appends refused by the contiguity rule
 	frozen       bool // set by a harness once the node has answered NewTerm: the log must not grow any more
 	racy         bool // Sync is a schedule point (concurrency harnesses)
 }
@@ -49,6 +50,7 @@ func (w *zzWal) AppendAsync(e *proto.LogEntry) error {
 		return wal.ErrInvalidNextOffset
 	}
 	if w.lastAppended != -1 && e.Offset != w.lastAppended+1 {
+		w.rejected++
 		return wal.ErrInvalidNextOffset
 	}
 	vAssert("log-does-not-grow-after-answering-new-term", !w.frozen)
